@@ -316,9 +316,12 @@ class RandomHistory(object):
         if cat == "timeout":
             return {"t": "timeout", "id": cid}
         if cat == "disconnect":
-            return {"t": "disconnect", "id": cid}
+            # (now and then the server says why - a trailing parameter that changes nothing: the client is withdrawn all the same)
+            why_ = zlib.crc32(("%d/%d" % (cid, len(s.trace.steps))).encode()) % 6
+            return dict({"t": "disconnect", "id": cid}, **({"text": ["Connection reset by peer", "", "Ping timeout: 240 seconds"][why_ // 2 % 3]} if why_ < 2 else {}))
         if cat == "registered":
-            return {"t": "registered", "id": cid}
+            why_ = zlib.crc32(("%d/%d/T" % (cid, len(s.trace.steps))).encode()) % 6
+            return dict({"t": "registered", "id": cid}, **({"text": ["registered", "x y"][why_ % 2]} if why_ < 2 else {}))
         if cat in ("reply", "unlinked"):
             cands = [(c, sv) for c in openids for sv in sorted(s.open[c]["awaiting"])]
             if not cands:
